@@ -151,7 +151,12 @@ func runFieldCase(r *Run, family string, c fieldCase, extraHooks map[string]hook
 		for i, n := range names {
 			env[n] = new(big.Int).Mod(big.NewInt(int64(7+i)), new(big.Int).Add(his[i], big.NewInt(1)))
 		}
-		if ok, emsg := runCaseOnEngine(c, nil, names, env); !ok && strings.Contains(emsg, "panic") {
+		head := msg
+		if len(head) > 40 {
+			head = head[:40]
+		}
+		// (gnark's test engine turns a panic inside Define into an error that carries its text)
+		if ok, emsg := runCaseOnEngine(c, nil, names, env); !ok && (strings.Contains(emsg, "panic") || strings.Contains(emsg, head)) {
 			r.mu.Lock()
 			r.done = append(r.done, obResult{ob: &Ob{Name: c.name + "/definable", Family: family, Site: c.name}, res: smt.Result{Status: "concrete", Solver: "-"}, status: "violation",
 				viol: &Violation{Site: c.name, What: c.name + ": the real code panics for this (valid) parameterisation: " + short(msg, 160), Replay: map[string]any{"kind": "functional", "family": family, "case": c.name}, Outcome: "gnark test engine on the real code: " + short(emsg, 160)}})
